@@ -304,11 +304,133 @@ def set_item(ctx, fr, path, cont, key, val, node=None):
 
 
 # ------------------------------------------------------------------------------------------------ control flow
+def merge_terms(ctx, m, c, ta, tb, pa, pb):
+    """ite of two V terms, keeping a known constructor at the top (lists, strings, sets ...)."""
+    ta, tb = simp(ta), simp(tb)
+    ca, cb = smt.ctor(ta), smt.ctor(tb)
+    if ca is not None and ca == cb:
+        if ca in ("VList", "VTuple", "VStr", "VInt", "VBool", "VFloat"):
+            return simp(getattr(V, ca)(z3.If(c, ta.arg(0), tb.arg(0))))
+        if ca == "VSet":
+            aa = ctx.set_arr(pa, Val(ta))
+            ab = ctx.set_arr(pb, Val(tb))
+            sid = next(ctx.alloc)
+            m.sets[sid] = simp(z3.If(c, aa, ab))
+            return V.VSet(z3.IntVal(sid), simp(z3.If(c, ta.arg(1), tb.arg(1))))
+    return simp(z3.If(c, ta, tb))
+
+
+def merge_paths(ctx, base, c, pt, pf):
+    """Join two paths that fell through the arms of `if c:` into one path with ite-values (None if the states
+    cannot be joined). Facts learned inside an arm are kept guarded by the arm's condition."""
+    nb = len(base.pc)
+    if len(pt.pc) != nb + 1 or len(pf.pc) != nb + 1:
+        return None
+    m = base.fork()
+    notc = simp(z3.Not(c))
+    for name in set(pt.env) | set(pf.env):
+        a, b = pt.env.get(name), pf.env.get(name)
+        if a is None or b is None:
+            return None
+        if a is b:
+            m.env[name] = a
+            continue
+        if isinstance(a, Val) and isinstance(b, Val):
+            if z3.eq(simp(a.t), simp(b.t)):
+                m.env[name] = a if a.ann == b.ann else Val(a.t, None, own=a.own, deep=a.deep, src=a.src)
+                continue
+            v = Val(merge_terms(ctx, m, c, a.t, b.t, pt, pf), a.ann if a.ann == b.ann else None,
+                    own="imm" if (a.own == "imm" and b.own == "imm") else ("borrow" if "borrow" in (a.own, b.own) else "fresh"),
+                    deep=a.deep and b.deep, src=a.src if a.src is b.src else None)
+            v.root = a.root if a.root == b.root else None
+            v.unord = a.unord or b.unord
+            m.env[name] = v
+            continue
+        return None
+    for field in set(pt.heap) | set(pf.heap):
+        a = pt.heap.get(field)
+        b = pf.heap.get(field)
+        if a is None:
+            a = ctx.heap_arr(base, field)
+        if b is None:
+            b = ctx.heap_arr(base, field)
+        if z3.eq(a, b):
+            m.heap[field] = a
+            continue
+        # join location-wise so that the array stays a chain of stores over the entry array
+        from .loops import heap_writes
+        e = ctx.heap_arr(base, field)
+        wa, wb = heap_writes(e, a), heap_writes(e, b)
+        if wa is None or wb is None:
+            return None
+        arr = e
+        seen = set()
+        for idx, _ in wa + wb:
+            if idx.get_id() in seen:
+                continue
+            seen.add(idx.get_id())
+            arr = z3.Store(arr, idx, merge_terms(ctx, m, c, z3.Select(a, idx), z3.Select(b, idx), pt, pf))
+        m.heap[field] = simp(arr)
+    for key in set(pt.fresh) | set(pf.fresh):
+        a, b = pt.fresh.get(key), pf.fresh.get(key)
+        if a is None or b is None:
+            m.fresh[key] = a if a is not None else b
+        else:
+            m.fresh[key] = a if z3.eq(a, b) else merge_terms(ctx, m, c, a, b, pt, pf)
+    for k, v in list(pt.sets.items()) + list(pf.sets.items()):
+        m.sets.setdefault(k, v)
+    for k, v in list(pt.dicts.items()) + list(pf.dicts.items()):
+        m.dicts.setdefault(k, v)
+    for g in set(pt.ghost) | set(pf.ghost):
+        a, b = pt.ghost.get(g), pf.ghost.get(g)
+        if a is None or b is None:
+            return None
+        m.ghost[g] = a if z3.eq(simp(a.t), simp(b.t)) else Val(merge_terms(ctx, m, c, a.t, b.t, pt, pf), a.ann if a.ann == b.ann else None)
+    nf = len(base.facts)
+    for f in pt.facts[nf:]:
+        m.facts.append(z3.Implies(c, f))
+    for f in pf.facts[nf:]:
+        m.facts.append(z3.Implies(notc, f))
+    for n in pt.notes + pf.notes:
+        if n not in m.notes:
+            m.notes.append(n)
+    return m
+
+
 def s_If(ctx, fr, path, st):
     out = []
     for p, c in ev(ctx, fr, path, st.test):
-        for q, tv in ctx.branch(p, ctx.truthy(p, c), f"if@{st.lineno}"):
-            out += exec_block(ctx, fr, q, st.body if tv else st.orelse)
+        cond = simp(ctx.truthy(p, c))
+        if p.eqs and not (z3.is_true(cond) or z3.is_false(cond)):
+            cond = simp(z3.substitute(cond, *p.eqs))
+        if z3.is_true(cond) or z3.is_false(cond):
+            out += exec_block(ctx, fr, p, st.body if z3.is_true(cond) else st.orelse)
+            continue
+        notcond = simp(z3.Not(cond))
+        if not ctx.feasible(p, cond):
+            ctx._learn(p, cond, False)
+            out += exec_block(ctx, fr, p, st.orelse)
+            continue
+        if not ctx.feasible(p, notcond):
+            ctx._learn(p, cond, True)
+            out += exec_block(ctx, fr, p, st.body)
+            continue
+        # execute both arms; join them when each falls through on a single path
+        pt = p.fork()
+        pt.pc.append(cond)
+        ctx._learn(pt, cond, True)
+        pf = p.fork()
+        pf.pc.append(simp(z3.Not(cond)))
+        ctx._learn(pf, cond, False)
+        n_ob = len(ctx.obligations)
+        outs_t = exec_block(ctx, fr, pt, st.body)
+        outs_f = exec_block(ctx, fr, pf, st.orelse) if st.orelse else [(pf, Outcome("fall"))]
+        if len(outs_t) == 1 and len(outs_f) == 1 and outs_t[0][1].kind == "fall" and outs_f[0][1].kind == "fall":
+            m = merge_paths(ctx, p, cond, outs_t[0][0], outs_f[0][0])
+            if m is not None:
+                out.append((m, Outcome("fall")))
+                continue
+        out += outs_t + outs_f
     return out
 
 
